@@ -445,6 +445,108 @@ def obs_loaded_tree(tree, doc_nodes=None):
     return [go(c) for c in (tree._root._children or [])], hashes
 
 
+def canon(root):
+    """what must not depend on any storage option, target kind or mapper style: shape, order, rebuilt data, kinds,
+    stable data_ids, clone partition"""
+    nodes = B.all_nodes(root)
+    first = {}
+    out = []
+    for i, n in enumerate(nodes):
+        g = first.setdefault(n._data_id, i)
+        par = -1 if n._parent is root else next(j for j, m in enumerate(nodes) if m is n._parent)
+        out.append((par, value_repr(n._data), getattr(n, "_kind", None),
+                    repr(n._data_id) if id_stable(n) else None, g))
+    return out
+
+
+def consuming(base):
+    """a deserialize mapper that CONSUMES the dict it is handed (pops the members it knows) before building the
+    object -- legitimate: 'node data as rebuilt by the mapper'"""
+    def m(parent, data):
+        data.pop("data_id", None)
+        data.pop("kind", None)
+        return base(parent, data)
+    return m
+
+
+def consuming_loads(cls, lkw, text):
+    """[(style, loaded tree | exception)] for a dict-consuming mapper, callback style and derived-class style"""
+    base = lkw.get("mapper") or cls.deserialize_mapper
+    out = []
+    try:
+        out.append(("callback", cls.load(io.StringIO(text), mapper=consuming(base))))
+    except Exception as e:  # noqa: BLE001
+        out.append(("callback", e))
+
+    class Consuming(cls):
+        deserialize_mapper = staticmethod(consuming(base))
+    try:
+        out.append(("derived class", Consuming.load(io.StringIO(text))))
+    except Exception as e:  # noqa: BLE001
+        out.append(("derived class", e))
+    return out
+
+
+def class_defaults_changed():
+    """message if a class-level DEFAULT_KEY_MAP / DEFAULT_VALUE_MAP is no longer what the class declares (a save
+    must never write into them); the attributes are put back so that one case does not poison the next"""
+    from nutree.fs import FileSystemTree
+    exp = [(Tree, {"data_id": "i", "str": "s"}, {}), (TypedTree, {"data_id": "i", "str": "s", "kind": "k"}, {}),
+           (FileSystemTree, {}, {})]
+    for (typed, _calc), c in _DERIVED.items():
+        exp.append((c, dict(CUSTOM_KM), dict(CUSTOM_VM_TYPED if typed else CUSTOM_VM)))
+    msg = None
+    for c, km, vm in exp:
+        if c.DEFAULT_KEY_MAP != km or c.DEFAULT_VALUE_MAP != vm:
+            msg = msg or (f"class: {c.__name__}.DEFAULT_KEY_MAP/DEFAULT_VALUE_MAP changed to "
+                          f"{c.DEFAULT_KEY_MAP} / {c.DEFAULT_VALUE_MAP}")
+            c.DEFAULT_KEY_MAP, c.DEFAULT_VALUE_MAP = dict(km), {k: list(v) for k, v in vm.items()}
+    return msg
+
+
+def expected_header(desc, root, meta):
+    import nutree
+    kmap, vmap = doc_maps(desc, root)
+    exp = {"$generator": f"nutree/{nutree.__version__}", "$format_version": "1.0"}
+    if kmap:
+        exp["$key_map"] = kmap
+    if vmap:
+        exp["$value_map"] = vmap
+    exp.update(json.loads(json.dumps(meta or {})))
+    return exp
+
+
+def meta_reuse_check(desc, tree, cls, lkw):
+    """ONE meta dict object handed to two saves with different options: save must not touch the caller's dict, and the
+    second file (maps off) must carry exactly generator, version and the user's members"""
+    import copy
+    m = dict(desc.get("meta") or {"foo": "bar"})
+    snap = copy.deepcopy(m)
+    skw, _l, _c = resolve_opts(desc)
+    skw0, lkw0, cls0 = resolve_opts(dict(desc, km="false", vm="false"))
+    try:
+        fp = io.StringIO()
+        tree.save(fp, **{**skw, "meta": m})
+        if m != snap:
+            return f"meta: save() modified the caller's meta dict: {m} (was {snap})"
+        fp = io.StringIO()
+        tree.save(fp, **{**skw0, "meta": m})
+        if m != snap:
+            return f"meta: save() modified the caller's meta dict: {m} (was {snap})"
+        text = fp.getvalue()
+        hdr = json.loads(text)["meta"]
+        exp = expected_header(dict(desc, km="false", vm="false"), tree._root, snap)
+        if hdr != exp:
+            return f"meta: second save (maps off) with the same meta dict writes header {hdr}, expected {exp}"
+        fm = {}
+        t2 = cls0.load(io.StringIO(text), file_meta=fm, **lkw0)
+        if fm != exp:
+            return f"meta: file_meta of the second file {fm}, expected {exp}"
+        return t2
+    except Exception as e:  # noqa: BLE001
+        return f"meta: two saves with one meta dict: {e!r:.200}"
+
+
 def failed_load_facts(load):
     """hash() and str() of the data objects a FAILING load created before it failed (facts of the run the model
     needs for its uniqueness checks): the nodes allocated during `load()`, in creation order = entry order"""
